@@ -189,10 +189,21 @@ def tables(ns):
         rel2 = "slicec/src/parsers/slice/grammar.rs"
         g = read(repo, rel2, T)
         body = fn_body(g, "parse_tag_value", T, rel2)
-        tm = re.search(r"RangeInclusive::new\(\s*([^,]+),\s*([^)]+)\)\s*\.contains\(&i\.value\)", body)
+        # the range test on the integer's value, whatever the parameter is called: `RangeInclusive::new(lo, hi).contains(&<i>.value)`,
+        # `(lo..=hi).contains(&<i>.value)` or the two comparisons `<i>.value >= lo && <i>.value <= hi`; the bounds are constant integer
+        # expressions that may use `const NAME: i128 = ..;` items of the file
+        gconsts = {}
+        for cm in re.finditer(r"\bconst\s+(\w+)\s*:\s*i128\s*=\s*([^;]+);", g):
+            gconsts[cm.group(1)] = int_expr(T, rel2, cm.group(2), gconsts)
+        iv = r"[a-z_]\w*\.value"
+        tm = re.search(r"RangeInclusive::new\(\s*([^,]+),\s*([^)]+)\)\s*\.contains\(&" + iv + r"\)", body) \
+            or re.search(r"\(\s*([^().]+?)\s*\.\.=\s*([^()]+?)\s*\)\s*\.contains\(&" + iv + r"\)", body) \
+            or re.search(iv + r"\s*>=\s*([^&|;]+?)\s*&&\s*" + iv + r"\s*<=\s*([^&|;{]+?)\s*[;{]", body)
         if not tm:
             raise ExtractionError(T, rel2, "parse_tag_value: RangeInclusive::new(lo, hi).contains(&i.value) not found")
-        tag_lo, tag_hi = int_expr(T, rel2, tm.group(1), {}), int_expr(T, rel2, tm.group(2), {})
+        if len(set(re.findall(r"\b([a-z_]\w*)\.value\b", tm.group(0)))) != 1:
+            raise ExtractionError(T, rel2, "parse_tag_value: the range test is not about one integer's value")
+        tag_lo, tag_hi = int_expr(T, rel2, tm.group(1), gconsts), int_expr(T, rel2, tm.group(2), gconsts)
         rel3 = "slicec/src/validators/enums.rs"
         e = read(repo, rel3, T)
         body = fn_body(e, "backing_type_bounds", T, rel3)
